@@ -8,7 +8,19 @@ structure DS where
   kind : Kind := .tcp
   p : P := {}
   a : A := {}
+  ps : List (Nat × S) := []      -- the composed system (layer × flow × hook tasks), one per key
   deriving Inhabited
+
+/-- the Intercept addon's policy in the world cases: message 1 is the one that gets intercepted -/
+def pol (id : Nat) : Bool := id == 1
+
+def psGet (ps : List (Nat × S)) (key : Nat) : S :=
+  match ps.find? (·.1 == key) with
+  | some (_, s) => s
+  | none => {}
+
+def psSet (ps : List (Nat × S)) (key : Nat) (s : S) : List (Nat × S) :=
+  (key, s) :: ps.filter (·.1 != key)
 
 def kindOf : String → Option Kind
   | "http" => some .http | "dnsReq" => some .dnsReq | "dnsResp" => some .dnsResp | "ws" => some .ws
@@ -50,6 +62,30 @@ def stepLine (s : DS) (line : String) : DS × String :=
       let (p, o) := stepP s.kind s.p key (.close kl gn)
       ({ s with p }, render o)
     | _, _, _ => (s, "bad-op")
+  -- the composed system: `p <key> <input>`; reply = outputs, then whether a `deliver` would be enabled now
+  | "p" :: key :: rest => match key.toNat? with
+    | none => (s, "bad-op")
+    | some key =>
+      let i? : Option PIn := match rest with
+        | ["a", id, c] => match id.toNat?, c.toNat? with
+          | some id, some c => some (.arrive ⟨id, c⟩)
+          | _, _ => none
+        | ["d"] => some .deliver
+        | ["x", kl, gn] => match boolOf kl, boolOf gn with
+          | some kl, some gn => some (.close kl gn)
+          | _, _ => none
+        | ["intercept"] => some .intercept
+        | ["resume"] => some .resume
+        | ["kill"] => some .kill
+        | ["e", c] => c.toNat?.map .edit
+        | ["drop"] => some .drop
+        | _ => none
+      match i? with
+      | none => (s, "bad-op")
+      | some i =>
+        let r := pstep s.kind pol (psGet s.ps key) i
+        ({ s with ps := psSet s.ps key r.1 },
+         render r.2 ++ (if (lin r.1 .deliver).isSome then " !" else ""))
   | ["areset"] => ({ s with a := {} }, "ok")
   | ["hook", b] => match boolOf b with
     | some b => let a := stepA s.a (.hook b); ({ s with a }, renderA a)
